@@ -331,6 +331,7 @@ def plan(tier, seed):
             items.append({"kind": "late", "model": model, "screen": idx})
             items.append({"kind": "sideops", "model": model, "screen": idx})
             items.append({"kind": "incremental", "model": model, "screen": idx})
+            items.append({"kind": "intmask", "model": model, "screen": idx})
     return items
 
 
@@ -395,7 +396,23 @@ def run_refusal(item, col, tier):
         sel = screen.observation_mask.copy()
         sel[i] = True
         views.append((f"observed rows + masked row {i}", screen.subset(sel)))
+    # unions of plates (Plate objects produced by combine / concat / invert) that contain a masked row; the first row of
+    # the union is observed in some of them
+    from batchie.data import ScreenSubset
+    obs_p = [p for p in screen.plates if p.is_observed]
+    un_p = [p for p in screen.plates if not p.is_observed]
+    for a in obs_p:
+        for b_ in un_p:
+            views.append((f"plate {a.plate_name} combined with unobserved plate {b_.plate_name}", a.combine(b_)))
+            views.append((f"unobserved plate {b_.plate_name} combined with plate {a.plate_name}", b_.combine(a)))
+            views.append((f"concat([plate {a.plate_name}, plate {b_.plate_name}])", ScreenSubset.concat([a, b_])))
+    for b_ in un_p:
+        views.append((f"unobserved plate {b_.plate_name} alone", b_))
+        if len(un_p) > 1:
+            views.append((f"everything but unobserved plate {b_.plate_name} (invert)", b_.invert()))
     for label, view in views:
+        if bool(np.asarray(view.observation_mask).all()):
+            continue  # (a union that happens to hold observed rows only is legitimate input)
         col.evaluations += 1
         m = make_model(model, screen)
         try:
@@ -659,6 +676,37 @@ def run_sideops_item(item, col, tier):
         col.nontriv("sideops", model, idx, label)
 
 
+def run_intmask_item(item, col, tier):
+    """A fully observed screen whose observation mask is given as 0/1 integers (int64 from a list / data frame column, uint8
+    from an HDF5 dataset): if the model accepts it, it is trained on every experiment exactly once."""
+    model, idx = item["model"], item["screen"]
+    rows = [(r[0], r[1], r[2], r[3], True) for r in base_rows(model, idx) if r[4]]
+    if model == "interaction":
+        rows = [r for r in rows]
+    for dt in ("int64", "uint8", "int8"):
+        case = {"kind": "intmask", "model": model, "screen": idx, "dtype": dt}
+        col.evaluations += 1
+        col.states += 1
+        col.transitions += 1
+        try:
+            screen = make_screen(rows, control=CTL, observation_mask=np.ones(len(rows), dtype=dt))
+            m = make_model(model, screen)
+            m.add_observations(screen)
+        except Exception as exc:  # noqa: BLE001
+            if not exception_origin_in_repo(exc):
+                raise
+            col.refused += 1
+            col.outcome("intmask", model, dt, "refused")
+            continue
+        ta = training_arrays(m)
+        ref_screen = make_screen(rows, control=CTL)
+        msg = compare_training(reference_training(model, rows, ref_screen), ta)
+        if msg:
+            col.violation(f"C04|int-mask|training-set|{model}", f"{model} model, screen {idx}, fully observed with a {dt} 0/1 mask: {msg}", case)
+        col.outcome("intmask", model, dt, digest(tuple(a.tobytes() for a in ta)))
+        col.nontriv("intmask", model, idx, dt)
+
+
 def run_incremental_item(item, col, tier):
     """History: the observed experiments are handed to ONE model object in two calls (results arrive plate by plate) instead
     of one.  Same experiments, same order -> same training arrays, same posterior samples as the one-shot model."""
@@ -710,6 +758,8 @@ def run_incremental_item(item, col, tier):
 def run_item(item, col, tier):
     if item["kind"] == "incremental":
         return run_incremental_item(item, col, tier)
+    if item["kind"] == "intmask":
+        return run_intmask_item(item, col, tier)
     if item["kind"] == "sideops":
         return run_sideops_item(item, col, tier)
     if item["kind"] == "late":
@@ -757,4 +807,6 @@ def replay(case, col):
         run_sideops_item({"model": model, "screen": idx}, col, tier)
     elif kind == "incremental":
         run_incremental_item({"model": model, "screen": idx}, col, tier)
+    elif kind == "intmask":
+        run_intmask_item({"model": model, "screen": idx}, col, tier)
     col.evaluations += 1
